@@ -12,6 +12,64 @@ from ..templates import Gen, table_keys_with_nodes
 level = "other"
 
 
+def input_context_threaded(chk, repo, gen):
+    """pop / wrapify(with a count) / get_input fall back to the input scopes
+    of the context they are given.  wrapify's ctx parameter defaults to the
+    module-level DEFAULT_CTX, whose scopes are empty: a call without ctx reads
+    0 (or stdin) and does not advance the program's stream."""
+    from ..ctxthread import call_sites, default_contexts, judge
+    from ..grammar import make_shapes
+    pkg = [m for m in repo.package_modules() if not m.endswith(".dictionary")]
+    helpers = repo.mod("helpers")
+    names = {}
+    for nm in ("pop", "wrapify", "get_input"):
+        if nm not in helpers.functions:
+            raise AnalysisError(f"anchor vanished: helpers.{nm}")
+        names[nm] = helpers.functions[nm]
+    dflt = default_contexts(repo, pkg)
+    EF = repo.mod("elements").rel
+    TF = repo.mod("transpile").rel
+    texts = []
+    elems = gen.elements()
+    for key, knode, _ in table_keys_with_nodes(repo, "elements"):
+        v = elems.get(key)
+        if isinstance(v, tuple) and isinstance(v[0], str):
+            texts.append((f"elements[{key!r}]", v[0], EF, knode.lineno))
+    for key, knode, _ in table_keys_with_nodes(repo, "modifiers"):
+        v = gen.modifiers().get(key)
+        if isinstance(v, str):
+            texts.append((f"modifiers[{key!r}]", v, EF, knode.lineno))
+    pp = gen.it.module("vyxal.parse")
+    parse_mods = {n: list(pp.get(n)) for n in (
+        "MONADIC_MODIFIERS", "DYADIC_MODIFIERS", "TRIADIC_MODIFIERS")}
+    for shape in make_shapes(gen, "quick", parse_mods):
+        try:
+            texts.append((f"skeleton {shape.label}", gen.transpile_ast(
+                [shape.build(gen, {})], 0), TF, None))
+        except Exception:  # noqa: BLE001 - C02 reports generator problems
+            continue
+    n = 0
+    for call, callee, where, file, line in call_sites(repo, pkg, set(names),
+                                                      texts):
+        if callee == "wrapify" and len(call.args) < 2 and not any(
+                k.arg == "count" for k in call.keywords):
+            continue  # wrapify(x) only wraps; it never reads input
+        n += 1
+        bad = judge(call, names[callee], dflt)
+        cons = f"{where}:{' '.join(ast.unparse(call).split())[:50]}"
+        chk.ob("C11.input-context-threaded", cons, bad is None,
+               f"`{callee}` is " + (
+                   f"called without a context and defaults to `{bad[1]}`"
+                   if bad and bad[0] == "omitted" else
+                   f"handed `{bad[1] if bad else ''}`")
+               + ", whose input scopes are not the running program's: "
+               "missing arguments are read as 0 / from stdin and the "
+               "program's input stream is not advanced", file, line,
+               witness="inputs 7 8 9, program λ+;† +")
+    chk.unit("calls of input-reading helpers examined", n)
+    chk.floor("calls of input-reading helpers examined", n, 300)
+
+
 def norm(s):
     return "".join(s.split())
 
@@ -285,8 +343,37 @@ def check(chk, repo, tier):
                 why = (f"scope holds `{ast.unparse(e)}`; it must be a reversed "
                        f"copy of the call's arguments (`{base}`) so that "
                        "implicit reads cycle over them in order")
+                # ... and a *snapshot*: the slice / reversal of a lazy wrapper
+                # (deep_copy, LazyList, iter, map ...) of the live list is
+                # evaluated at the first read, when the list has changed
+                lazy = {"deep_copy", "LazyList", "iter", "map", "filter",
+                        "tee", "reversed", "enumerate", "iterable"}
+                if ok:
+                    inner = e.value if isinstance(e, ast.Subscript) else e
+                    if isinstance(inner, ast.Call) and (dotted(inner.func)
+                                                        or "").split(".")[-1] \
+                            in lazy and not isinstance(e, ast.Subscript):
+                        inner_is_lazy = True
+                    elif isinstance(inner, ast.Call) and (
+                            dotted(inner.func) or "").split(".")[-1] in (
+                            lazy - {"reversed"}):
+                        inner_is_lazy = True
+                    else:
+                        inner_is_lazy = False
+                    # list(reversed(x)) / reversed list(...) are snapshots
+                    if isinstance(e, ast.Call) and (dotted(e.func) or "") in (
+                            "list", "tuple", "sorted"):
+                        inner_is_lazy = False
+                    if inner_is_lazy:
+                        ok = False
+                        why = (f"scope holds `{ast.unparse(e)}`, a lazy view "
+                               f"of the live `{base}`: it is only evaluated "
+                               "at the first implicit read, after the body "
+                               "has already popped the arguments")
         chk.ob("C11.scope-push", f"{label} template", ok, why, TF,
                sample={"structure": label})
+
+    input_context_threaded(chk, repo, gen)
 
     # ---- implicit reads happen while the call's own scope is still pushed --------------
     probes = [
